@@ -3,6 +3,17 @@
 use super::ChunkedReader;
 use std::io::{self, BufReader, Read};
 
+// limits the properties do not fix are read from the source under test (the same way the Verus units read them), so that a
+// change of a limit is not reported as a violation
+const SRC: &str = include_str!(concat!(env!("CARGO_MANIFEST_DIR"), "/src/parsing/chunked_reader.rs"));
+fn const_expr(after: &str, until: char) -> usize {
+    let i = SRC.find(after).unwrap_or_else(|| panic!("limit not found in the source: {}", after)) + after.len();
+    let e = &SRC[i..i + SRC[i..].find(until).unwrap()];
+    e.split('*').map(|f| f.trim().replace('_', "").parse::<usize>().unwrap_or_else(|_| panic!("limit expression {:?}", e))).product()
+}
+fn line_max() -> usize { const_expr("&mut self.buffer, ", ')') }
+fn buf_max() -> usize { const_expr("const MAX_BUFFER_LEN: usize = ", ';') }
+
 /// segmenting, fault-injecting reader
 struct Script<'a> { data: &'a [u8], pos: usize, seg: usize, calls: usize, fail_at: Option<usize>, kind: io::ErrorKind, sticky: bool }
 impl<'a> Read for Script<'a> {
@@ -23,7 +34,7 @@ fn le_len(w: &[u8]) -> Option<usize> {
     if !w.is_empty() && w[0] == 10 { Some(1) } else if w.len() >= 2 && w[0] == 13 && w[1] == 10 { Some(2) } else { None }
 }
 fn size_line(w: &[u8]) -> Option<(usize, usize)> {
-    let lim = 128.min(w.len());
+    let lim = line_max().min(w.len());
     let k = match w[..lim].iter().position(|&b| b == 10) { Some(i) => i + 1, None => return None };
     let line = if k >= 2 && w[k - 2] == 13 { &w[..k - 2] } else { &w[..k - 1] };
     if line.is_empty() { return None; }
@@ -40,7 +51,7 @@ fn fut(mut w: &[u8]) -> (Vec<u8>, bool) {
         if n == 0 { return (out, le_len(w).is_some()); }
         if w.len() < n {
             // data is delivered in pieces of at most 64 KiB, each complete piece counts
-            let whole = (w.len() / 65536) * 65536;
+            let whole = (w.len() / buf_max()) * buf_max();
             out.extend_from_slice(&w[..whole.min(w.len())]);
             return (out, false);
         }
@@ -208,12 +219,12 @@ fn vp_native_chunked_hostile_inputs_terminate() {
         // signs, blanks, prefixes
         b"+4\r\nwiki\r\n0\r\n\r\n".to_vec(), b"-4\r\nwiki\r\n0\r\n\r\n".to_vec(), b"0x4\r\nwiki\r\n0\r\n\r\n".to_vec(), b" 4 \r\nwiki\r\n0\r\n\r\n".to_vec(), b"4 ;x\r\nwiki\r\n0\r\n\r\n".to_vec(),
         // chunk extensions: within the 128-byte line limit, at it, beyond it, and endless
-        { let mut w = long_ext(100); w.extend_from_slice(b"\r\nhello\r\n0\r\n\r\n"); w }, { let mut w = long_ext(124); w.extend_from_slice(b"\r\nhello\r\n0\r\n\r\n"); w },
-        { let mut w = long_ext(125); w.extend_from_slice(b"\r\nhello\r\n0\r\n\r\n"); w }, { let mut w = long_ext(126); w.extend_from_slice(b"\r\nhello\r\n0\r\n\r\n"); w },
-        { let mut w = long_ext(200); w.extend_from_slice(b"\r\nhello\r\n0\r\n\r\n"); w }, long_ext(200), long_ext(70_000), long_ext(3_000_000),
+        { let mut w = long_ext(line_max() - 28); w.extend_from_slice(b"\r\nhello\r\n0\r\n\r\n"); w }, { let mut w = long_ext(line_max() - 4); w.extend_from_slice(b"\r\nhello\r\n0\r\n\r\n"); w },
+        { let mut w = long_ext(line_max() - 3); w.extend_from_slice(b"\r\nhello\r\n0\r\n\r\n"); w }, { let mut w = long_ext(line_max() - 2); w.extend_from_slice(b"\r\nhello\r\n0\r\n\r\n"); w },
+        { let mut w = long_ext(line_max() + 72); w.extend_from_slice(b"\r\nhello\r\n0\r\n\r\n"); w }, long_ext(line_max() + 72), long_ext(70_000), long_ext(3_000_000),
     ];
-    specials.push({ let mut w = vec![b'0'; 126]; w.extend_from_slice(b"\r\n\r\n"); w });
-    specials.push({ let mut w = vec![b'0'; 127]; w.extend_from_slice(b"\r\n\r\n"); w });
+    specials.push({ let mut w = vec![b'0'; line_max() - 2]; w.extend_from_slice(b"\r\n\r\n"); w });
+    specials.push({ let mut w = vec![b'0'; line_max() - 1]; w.extend_from_slice(b"\r\n\r\n"); w });
     for wire in &specials { for seg in [1usize, 64, 100_000] {
         let (want, clean) = fut(wire);
         let mut r = reader(wire, seg);
@@ -223,7 +234,7 @@ fn vp_native_chunked_hostile_inputs_terminate() {
         else { assert!(end.is_err(), "malformed or truncated body ended with Ok: {:?}... ({} bytes delivered)", &wire[..wire.len().min(40)], got.len()); }
         // bounded input: a size line without end is given up after the line limit plus what the buffers read ahead
         let used = r.inner.get_ref().pos;
-        if !clean && size_line(wire).is_none() { assert!(used <= 128 + 7 + seg, "{} bytes of an endless chunk-size line were consumed (segments of {})", used, seg); }
+        if !clean && size_line(wire).is_none() { assert!(used <= line_max() + 7 + seg, "{} bytes of an endless chunk-size line were consumed (segments of {})", used, seg); }
         cases += 1;
     } }
     println!("VP-NATIVE chunked_hostile_inputs_terminate cases={}", cases);
